@@ -75,9 +75,26 @@ func (sh *SearchHistory) Load() error {
 		return nil
 	}
 
-	err = json.Unmarshal(data, sh)
+	// Decode into a scratch value so that a damaged file leaves the history as
+	// it was instead of half-overwritten.
+	var stored SearchHistory
+	err = json.Unmarshal(data, &stored)
 	if err != nil {
 		return fmt.Errorf("failed to parse history file: %w", err)
+	}
+
+	// A stored maximum that is not positive is meaningless (and would make
+	// AddEntry drop or mis-slice every entry): keep the configured one.
+	if stored.MaxSize > 0 {
+		sh.MaxSize = stored.MaxSize
+	}
+	sh.Entries = stored.Entries
+	if sh.Entries == nil {
+		sh.Entries = make([]SearchEntry, 0)
+	}
+	// The file may hold more entries than the maximum in force: keep the newest
+	if len(sh.Entries) > sh.MaxSize {
+		sh.Entries = sh.Entries[len(sh.Entries)-sh.MaxSize:]
 	}
 
 	return nil
